@@ -106,6 +106,10 @@ func runC09(r *ev.Run) {
 		hashes := map[string]string{} // segment file -> sha256 at the time it was first seen after an acknowledged flush
 		var maxSeen uint64
 		nSessions := 1 + rng.IntN(4)
+		if ci%12 == 7 {
+			nSessions = 8 + rng.IntN(8) // many open / close cycles over one directory
+			r.Count("cases:many-sessions", 1)
+		}
 		midFlushes, rotations, faults := 0, 0, 0
 		verifyDir := func(when string) {
 			files, err := segmentFiles(dir)
@@ -195,6 +199,9 @@ func runC09(r *ev.Run) {
 			}
 			pending := map[uint32]bool{}
 			nAdds := 1 + rng.IntN(25)
+			if nSessions >= 8 {
+				nAdds = 1 + rng.IntN(6)
+			}
 			if p.VecKind == "hnsw" && nAdds > 30 {
 				nAdds = 30
 			}
